@@ -239,8 +239,8 @@ type sessOpts struct {
 	Decoys    int
 	AttFirst  bool // attestation is not the first capability of its token (then it is not considered)
 	RSAAuth   bool
-	WebAuth   bool   // the authority is identified by did:web:example.com (its key wrapped), not by a did:key
-	Lookalike string // suffix making a DID that textually EXTENDS the authority's (".evil.org", ":users:mallory"); used by AttIssuer / Resource "lookalike"
+	WebAuth   bool    // the authority is identified by did:web:example.com (its key wrapped), not by a did:key
+	Lookalike string  // suffix making a DID that textually EXTENDS the authority's (".evil.org", ":users:mallory"); used by AttIssuer / Resource "lookalike"
 	TimeShift *[2]int // exp, nbf overrides for the attestation (C03)
 	Now       int
 }
